@@ -24,7 +24,7 @@
 (* d |-> dimension, v |-> number]; unused fields are "" / 0.               *)
 (* Actions of the environment: A (x = 0,1), B (x = 5,6: same shape, other  *)
 (* coordinate values), A2 = A.map(par1), B2 = B.map(par2), D (x = 0,1;     *)
-(* y = 7: a dimension of size one).                                        *)
+(* y = 7: a dimension of size one), E (x = 0..3).                          *)
 (***************************************************************************)
 EXTENDS Naturals, Sequences, FiniteSets, TLC, Json, IOUtils, SequencesExt
 
@@ -52,6 +52,12 @@ JoinReduce(t, f) == <<From(t[1]), Op("joinz", "", t[2], "", 0), Op("joinz", "", 
 PermCases == {[kind |-> "names", start |-> "A", p |-> <<From(pr[1]), Op(k, "", pr[2], "", 0)>>, q |-> <<From(pr[2]), Op(k, "", pr[1], "", 0)>>] :
                  k \in SwapKinds, pr \in OperandPairs}
         \cup {[kind |-> "names", start |-> "A", p |-> JoinReduce(t1, f), q |-> JoinReduce(t2, f)] : t1, t2 \in Perm3, f \in {"def1", "lam1"}}
+\* (H) one Payload OBJECT handed to several operations of a case (and to both builds of the case), as a user holding a
+\*     Payload in a variable does: reductions over 2 and 4 inputs, a batched reduction with uneven batches (size 4, batches
+\*     of 3: nodes with 3 and with 2 inputs), maps; E is a source with x = 0..3; pargs is Payload(g, [1]), pbat is batchable
+SharedOps(pk) == {Op("reduce_p", pk, "", "x", 0), Op("map_p", pk, "", "", 0)} \cup (IF pk = "pbat" THEN {Op("reduce_p", pk, "", "x", 3)} ELSE {})
+SharedCases == UNION {{[kind |-> "names", start |-> "A", p |-> <<From(s1), o1>>, q |-> <<From(s2), o2>>] :
+                          s1 \in {"A", "E", "D"}, s2 \in {"A", "E", "D"}, o1 \in SharedOps(pk), o2 \in SharedOps(pk)} : pk \in {"pdef1", "pbat", "pargs"}}
 \* (S) two sources, created by one from_source call or by two
 SrcCallables == {"slam1", "slam2", "sdef1", "sdef2", "spar1", "spar2"}
 SourceCases == {[kind |-> "sources", start |-> "", p |-> <<Op("source", c1, "", IF one THEN "one_call" ELSE "two_calls", 0)>>,
@@ -90,7 +96,7 @@ Post(c, r) ==
  \cup (IF c.kind # "operands" /\ Len(r.steps) # 2 * (Len(c.p) + Len(c.q)) THEN {"program_not_executed"} ELSE {})
 
 \* ======================================================================== the two TLC passes
-Generate == JsonSerialize(IOEnv.CASES_FILE, SetToSeq(NameCases) \o SetToSeq(PermCases) \o SetToSeq(SourceCases) \o SetToSeq(OperandCases) \o SetToSeq(TwiceCases))
+Generate == JsonSerialize(IOEnv.CASES_FILE, SetToSeq(NameCases) \o SetToSeq(PermCases) \o SetToSeq(SharedCases) \o SetToSeq(SourceCases) \o SetToSeq(OperandCases) \o SetToSeq(TwiceCases))
 \* names are also compared ACROSS cases: G = every node description of the whole run, Amb = names with two computations
 Judge ==
   LET cs == JsonDeserialize(IOEnv.CASES_FILE)
